@@ -123,7 +123,8 @@ fn all_msgs() -> Vec<(&'static str, MigrateMsg)> {
     ]
 }
 
-const VERSIONS: [&str; 11] = ["0.4.18", "0.4.20", "1.0.0", "1.0.1", "1.1.0", "1.2.0", "0.9.9", "", "garbage", "1.0.0-rc1", "01.0.0"];
+// includes versions whose string order and numeric order disagree (1.10.0 vs 1.9.0, 0.10.0, 0.4.100, 0.4.3)
+const VERSIONS: [&str; 17] = ["0.4.18", "0.4.20", "1.0.0", "1.0.1", "1.1.0", "1.2.0", "0.9.9", "", "garbage", "1.0.0-rc1", "01.0.0", "1.10.0", "0.10.0", "0.4.100", "0.4.3", "1.0.00", "10.0.0"];
 const NAMES: [&str; 4] = ["staking", "treasury", "crates.io:staking", ""];
 
 fn v110_grid(r: &mut Runner, thorough: bool) {
@@ -454,7 +455,7 @@ fn treasury_grid(r: &mut Runner) {
     let mut acc = 0u64;
     let mut viols: V = vec![];
     let base = crate::own::treasury_kv(&p20("adm"), &p20("trader"), vec![]);
-    for ver in ["0.4.18", "0.4.19", "0.4.20", "0.4.21", "1.0.0", "0.1.0", "", "garbage", "0.4.20-rc1", "00.4.1"] {
+    for ver in ["0.4.18", "0.4.19", "0.4.20", "0.4.21", "1.0.0", "0.1.0", "", "garbage", "0.4.20-rc1", "00.4.1", "0.10.0", "0.4.100", "0.4.3", "0.4.9", "0.3.99", "10.0.0", "0.4.2"] {
         for name in ["treasury", "staking", "crates.io:treasury", ""] {
             let mut pre = base.clone();
             cw2::set_contract_version(&mut pre, name, ver).unwrap();
@@ -466,7 +467,8 @@ fn treasury_grid(r: &mut Runner) {
                 guarded(|| treasury::contract::migrate(deps, env(), treasury::msg::MigrateMsg {}))
             };
             n += 1;
-            let newer = matches!(ver, "0.4.18" | "0.4.19" | "0.1.0" | "0.4.20-rc1");
+            // strictly older than 0.4.20 in semver order
+            let newer = matches!(ver, "0.4.18" | "0.4.19" | "0.1.0" | "0.4.20-rc1" | "0.4.3" | "0.4.9" | "0.3.99" | "0.4.2");
             let should = name == "treasury" && newer;
             let case = json!({"contract": "treasury", "version": ver, "name": name});
             match res {
